@@ -16,7 +16,8 @@ treats "@.x" as a string instead of as a path.`,
 
 func quote(root map[string]any, at any, args ...any) (val any) {
 	if 0 < len(args) {
-		val = args[0]
+		// A copy so that a change of the result is not a change of the plan.
+		val = dupLiteral(args[0])
 	}
 	return
 }
